@@ -50,3 +50,14 @@ class StripComment(Plugin):
 
     def get_file_comment(self, comment, code, source=None):
         return ""
+
+
+class DropQuerySuffix(Plugin):
+    """A naming plugin of the kind the plugin documentation suggests: operation (and other) names lose a trailing Query / _query. Two distinct names of one scope
+    may meet only AFTER this hook ran (getUser / getUserQuery)."""
+
+    def process_name(self, name, node=None):
+        for suffix in ("_query", "Query"):
+            if name.endswith(suffix) and len(name) > len(suffix):
+                return name[: -len(suffix)]
+        return name
